@@ -150,6 +150,7 @@ func calcOutflow(timestep int, inflow, lateral, bias, prevQi, prevOutflow, prevS
 		qi = minQI
 		outflow = 0.0
 		// fmt.Printf("calcOutflow-2, outflow=0, storage=%f\n", storage)
+		verifRoutingPath(1)
 		return
 	}
 
@@ -163,6 +164,7 @@ func calcOutflow(timestep int, inflow, lateral, bias, prevQi, prevOutflow, prevS
 		// if bias < 0.999 {
 		// 	fmt.Printf("calcOutflow-3, qi=%f,delta=%f,outflow=%f,storage=%f\n", qi, delta, outflow, storage)
 		// }
+		verifRoutingPath(2)
 		return
 	}
 
@@ -184,6 +186,7 @@ func calcOutflow(timestep int, inflow, lateral, bias, prevQi, prevOutflow, prevS
 		outflow = 0.0
 		delta = 0.0
 		// fmt.Printf("calcOutflow-4, qi=%f,delta=%f,outflow=%f,storage=%f\n", qi, delta, outflow, storage)
+		verifRoutingPath(3)
 		return
 	}
 
@@ -197,6 +200,7 @@ func calcOutflow(timestep int, inflow, lateral, bias, prevQi, prevOutflow, prevS
 		storage = math.Max((prevStorage + (inflow+lateral-netEvaporationFlux-outflow)*duration), 0.0)
 
 		// fmt.Printf("calcOutflow-5, qi=%f,delta=%f,outflow=%f,storage=%f\n", qi, delta, outflow, storage)
+		verifRoutingPath(4)
 		return
 	}
 
@@ -214,6 +218,7 @@ func calcOutflow(timestep int, inflow, lateral, bias, prevQi, prevOutflow, prevS
 
 	if math.Abs(delta) < massBalanceLimit {
 		// fmt.Printf("calcOutflow-6, qi=%f,delta=%f,outflow=%f,storage=%f\n", qi, delta, outflow, storage)
+		verifRoutingPath(5)
 		return
 	}
 
@@ -239,6 +244,7 @@ func calcOutflow(timestep int, inflow, lateral, bias, prevQi, prevOutflow, prevS
 		fmt.Printf("delta=%f\n",delta)
 		panic("outflow is nan")
 	}
+	verifRoutingPath(6)
 	return
 }
 
